@@ -11,6 +11,7 @@ META = {
         "(2) after a software-breakpoint trap the pc is rewound by one before the breakpoint lookup and before any Breakpoint/EndOfScope stop is built, and not in the hardware-breakpoint arm; "
         "(3) every place that temporarily un-patches a live breakpoint re-patches it on every normal exit with exactly a single-step in between, and only classified sites call Breakpoint::disable; "
         "(4) every removal from the active-breakpoint map un-patches the removed object; the continue loop steps off the breakpoint before resuming in every looping arm."
+        " (5) the step-off decision is taken on the focus thread's real pc, and the tracer's transparent step-off happens after the pc rewind."
     ),
     "not_decided": "that stops happen exactly once per arrival, in execution order, for arbitrary programs and histories (needs execution); kernel/ptrace semantics",
     "assumptions": [
